@@ -725,6 +725,12 @@ class Interp:
     def st_Assign(self, s):
         v = self.ev(s.value)
         for t in s.targets:
+            if isinstance(t, ast.Name) and self.contract is not None and t.id in getattr(self.contract, 'locals_sig', {}) \
+                    and S.is_seq(v) and z3.is_true(z3.simplify(z3.Length(v) == 0)):
+                # an empty list literal for a local the contract wants array-backed
+                el = self.contract.locals_sig[t.id]
+                arr = self.p.fresh(t.id + '_a', z3.ArraySort(z3.IntSort(), S.sort_of(el)))
+                v = ArrList(arr, z3.IntVal(0), el)
             self.assign(t, v)
 
     def st_AnnAssign(self, s):
@@ -1029,6 +1035,10 @@ class Interp:
     def iter_access(self, seqv, node):
         if isinstance(seqv, OpaqueSeq):
             return z3.Length(seqv.seq), lambda i: Opaque(seqv.kind, seqv.seq[i])
+        if S.is_record(seqv) and S.record_name(seqv.sort()) == 'AbsStr':
+            # a string known only by its length and last character
+            f = self.w.uf('absstr_char', seqv.sort(), z3.IntSort(), z3.IntSort())
+            return S.rec_get(seqv, 'n'), lambda i: Char(f(seqv, i))
         if isinstance(seqv, PyRange):
             ln = seqv.hi - seqv.lo
             return z3.If(ln < 0, 0, ln), lambda i: seqv.lo + i
@@ -1508,6 +1518,9 @@ class Interp:
         self.oos('`is` between non-None values', n)
 
     def contains(self, container, x, n):
+        if isinstance(container, PyRange):
+            xi = self.as_int(x, n)
+            return z3.And(xi >= container.lo, xi < container.hi)
         if isinstance(container, SetLit):
             return self.disj([self.eq(x, it, n) for it in container.items])
         if isinstance(container, PyTuple):
@@ -1785,6 +1798,13 @@ class Interp:
         if isinstance(obj, OpaqueSeq):
             i = self.norm_index(idx, z3.Length(obj.seq), n)
             return Opaque(obj.kind, obj.seq[i])
+        if S.is_record(obj) and S.record_name(obj.sort()) == 'AbsStr':
+            ln = S.rec_get(obj, 'n')
+            i = self.norm_index(idx, ln, n)
+            f = self.w.uf('absstr_char', obj.sort(), z3.IntSort(), z3.IntSort())
+            if isinstance(idx, int) and idx == -1:
+                return Char(S.rec_get(obj, 'last'))
+            return Char(f(obj, i))
         if isinstance(obj, PyTuple):
             if isinstance(idx, int):
                 return obj.items[idx]
